@@ -209,9 +209,8 @@ pub fn walk_keys(r: &dyn ReadableZone) -> Vec<WalkKey> {
     r.walk(Box::new(move |owner: StoredName, rrset: &SharedRrset, at_cut: bool| {
         o2.lock().unwrap().push(key_of(&owner, rrset.as_rrset(), at_cut));
     }));
-    let mut v = std::mem::take(&mut *out.lock().unwrap());
-    v.sort();
-    v
+    let v = std::mem::take(&mut *out.lock().unwrap());
+    per_record(v)
 }
 
 /// An answer as the message `Answer::to_message` produces for a fixed
